@@ -3,7 +3,8 @@
 sd="$(realpath "$1")"; id="$2"; tier="${3:-quick}"
 cd /verif
 git -C /repo diff --quiet || { echo "/repo has uncommitted changes"; exit 2; }
-git -C /repo apply -3 "$sd/patch.diff" 2>/dev/null || git -C /repo apply "$sd/patch.diff" || { echo "patch does not apply to /repo"; exit 2; }
+git -C /repo apply "$sd/patch.diff" 2>/dev/null || git -C /repo apply -3 "$sd/patch.diff" 2>/dev/null || { git -C /repo reset -q; git -C /repo checkout -q -- .; echo "patch does not apply to /repo (rebase it)"; exit 2; }
+git -C /repo reset -q
 cp evidence/$id.json /tmp/ev-$id.bak 2>/dev/null
 ./vcheck $id --tier $tier > /tmp/seedrun-$id.log 2>&1; rc=$?
 git -C /repo reset -q; git -C /repo checkout -q -- .
